@@ -51,7 +51,10 @@ pub mod thread {
     impl Thread {
         pub fn unpark(&self) {
             match self {
-                Thread::Virt(k) => hooks().expect("hooks").wake(*k),
+                Thread::Virt(k) => {
+                    super::event("thread.unpark", *k as u64, 0);
+                    hooks().expect("hooks").wake(*k)
+                }
                 Thread::Real(t) => t.unpark(),
             }
         }
@@ -67,7 +70,9 @@ pub mod thread {
     pub fn park() {
         match hooks() {
             Some(h) => {
-                h.block(h.thread_key(), None);
+                super::event("thread.park", h.thread_key() as u64, u64::MAX);
+                let w = h.block(h.thread_key(), None);
+                super::event("thread.wake", h.thread_key() as u64, w as u64);
             }
             None => std::thread::park(),
         }
@@ -76,7 +81,10 @@ pub mod thread {
     pub fn park_timeout(d: Duration) {
         match hooks() {
             Some(h) => {
-                h.block(h.thread_key(), Some(h.now_ns() + d.as_nanos() as u64));
+                let dl = h.now_ns().saturating_add(d.as_nanos().min(u64::MAX as u128) as u64);
+                super::event("thread.park", h.thread_key() as u64, dl);
+                let w = h.block(h.thread_key(), Some(dl));
+                super::event("thread.wake", h.thread_key() as u64, w as u64);
             }
             None => std::thread::park_timeout(d),
         }
